@@ -184,7 +184,9 @@ fn run_store(events: &[Ev], opt: &OptSet) -> Result<Option<(String, String)>, St
 				let mode = if nbegun % 2 == 1 { Mode::WriteOnly } else { Mode::ReadWrite };
 				nbegun += 1;
 				let t = tree.begin_with_mode(mode).map_err(|e| format!("{e}"))?;
-				let s = t.verif_start_seq();
+				// logical time, independent of the store's own sequence numbers: a transaction
+				// begins "at" the number of commits that have succeeded so far
+				let s = model.committed.len() as u64;
 				live.push((t, s));
 			}
 			Ev::Pin => pins.push(tree.begin_with_mode(Mode::ReadOnly).map_err(|e| format!("{e}"))?),
@@ -217,6 +219,12 @@ fn run_store(events: &[Ev], opt: &OptSet) -> Result<Option<(String, String)>, St
 					}));
 				}
 				if wal_fails {
+					// the failing transaction also writes its first key twice (before and after a
+					// savepoint): the batch then carries the key twice, which the rollback of its
+					// conflict-map entries has to cope with
+					let k0 = keyset(*mask)[0];
+					t.set_savepoint().map_err(|e| format!("{e}"))?;
+					t.set(k0, b"second-write-of-the-key").map_err(|e| format!("{e}"))?;
 					surrealkv::verif::arm_fail_point(Some(surrealkv::verif::FailSpec {
 						point: "commit.wal",
 						nth: 1,
@@ -238,7 +246,7 @@ fn run_store(events: &[Ev], opt: &OptSet) -> Result<Option<(String, String)>, St
 						if conflict {
 							return Ok(Some(("lost-update".into(), format!("step {step} {}: commit admitted (start={start}) although a later-committed transaction wrote a shared key; history {:?}", ev_str(e), model.committed))));
 						}
-						let seq = tree.verif_visible_seq();
+						let seq = model.committed.len() as u64 + 1;
 						model.committed.push((seq, *mask));
 						for k in keyset(*mask) {
 							kv.insert(k.to_vec(), val.clone());
